@@ -23,6 +23,34 @@ theorem dead_live_false {w : World} (h : w.dead) : w.live = false := by
 @[simp] theorem finishErr_lastRes (w : World) (o : String) (e : Err) : (w.finishErr o e).lastRes = some (.error e) := rfl
 @[simp] theorem finish_lastRes (w : World) (l : String) : (w.finish l).lastRes = some (.ok ()) := rfl
 
+/-- `discFail` is the identity except in the flush loop that precedes DISCONNECT. -/
+theorem discFail_cases (w : World) (ctx : StepCtx) :
+    (w.discFail ctx = w ∧ ∀ d, ctx ≠ .flush (.discPre d)) ∨
+    (w.discFail ctx = w.handleDisconnect ∧ ∃ d, ctx = .flush (.discPre d)) := by
+  unfold World.discFail
+  split
+  · exact .inr ⟨rfl, _, rfl⟩
+  · rename_i hne; exact .inl ⟨rfl, fun d hd => hne d hd⟩
+@[simp] theorem discFail_drive (w : World) (a : Bool) (o : Outer) : w.discFail (.drive a o) = w := rfl
+@[simp] theorem discFail_discPre (w : World) (d : Disconnect) :
+    w.discFail (.flush (.discPre d)) = w.handleDisconnect := rfl
+@[simp] theorem discFail_post (w : World) (n : String) (op : Op) : w.discFail (.flush (.post n op)) = w := rfl
+@[simp] theorem discFail_publishPre (w : World) (r) : w.discFail (.flush (.publishPre r)) = w := rfl
+@[simp] theorem discFail_subPre (w : World) (r) : w.discFail (.flush (.subPre r)) = w := rfl
+@[simp] theorem discFail_unsubPre (w : World) (r) : w.discFail (.flush (.unsubPre r)) = w := rfl
+@[simp] theorem discFail_nets (w : World) (ctx : StepCtx) : (w.discFail ctx).nets = w.nets := by
+  rcases discFail_cases w ctx with ⟨h, _⟩ | ⟨h, _⟩ <;> rw [h] <;> rfl
+@[simp] theorem discFail_wakes (w : World) (ctx : StepCtx) : (w.discFail ctx).wakes = w.wakes := by
+  rcases discFail_cases w ctx with ⟨h, _⟩ | ⟨h, _⟩ <;> rw [h] <;> rfl
+@[simp] theorem discFail_out (w : World) (ctx : StepCtx) : (w.discFail ctx).out = w.out := by
+  rcases discFail_cases w ctx with ⟨h, _⟩ | ⟨h, _⟩ <;> rw [h] <;> rfl
+@[simp] theorem discFail_now (w : World) (ctx : StepCtx) : (w.discFail ctx).now = w.now := by
+  rcases discFail_cases w ctx with ⟨h, _⟩ | ⟨h, _⟩ <;> rw [h] <;> rfl
+@[simp] theorem discFail_slot (w : World) (ctx : StepCtx) : (w.discFail ctx).slot = w.slot := by
+  rcases discFail_cases w ctx with ⟨h, _⟩ | ⟨h, _⟩ <;> rw [h] <;> rfl
+@[simp] theorem discFail_fut (w : World) (ctx : StepCtx) : (w.discFail ctx).fut = w.fut := by
+  rcases discFail_cases w ctx with ⟨h, _⟩ | ⟨h, _⟩ <;> rw [h] <;> rfl
+
 theorem driveEnter_dead (w : World) (o : Outer) (hl : w.live = false) :
     driveEnter pollFuel w o = w.finishErr (outerName o) .disconnected := by
   show driveEnter (3999 + 1) w o = _
